@@ -1,0 +1,94 @@
+//! Instrumented read-write lock (only compiled with the `verif` feature).
+//!
+//! `RwLock<T>` here is `lock_api::RwLock` over a raw lock that wraps parking_lot's raw lock and
+//! reports to an optional table of hooks: `want` *before* the real acquisition (a scheduler may
+//! hold the caller there), `released` after the real unlock. With no hooks installed each
+//! operation costs one relaxed load.
+
+use parking_lot::lock_api::{self, RawRwLock as RawRwLockTrait};
+use std::sync::atomic::{AtomicUsize, Ordering};
+
+#[derive(Clone, Copy)]
+pub struct Hooks {
+    pub want: fn(addr: usize, exclusive: bool),
+    pub released: fn(addr: usize, exclusive: bool),
+    pub yield_point: fn(name: &'static str),
+}
+
+static HOOKS: AtomicUsize = AtomicUsize::new(0);
+
+pub fn set_hooks(h: Option<&'static Hooks>) {
+    HOOKS.store(h.map_or(0, |p| p as *const Hooks as usize), Ordering::SeqCst);
+}
+
+#[inline]
+fn hooks() -> Option<&'static Hooks> {
+    let p = HOOKS.load(Ordering::Relaxed);
+    if p == 0 { None } else { Some(unsafe { &*(p as *const Hooks) }) }
+}
+
+/// A named pause point between two steps of an operation (no-op without hooks).
+#[inline]
+pub fn yield_point(name: &'static str) {
+    if let Some(h) = hooks() {
+        (h.yield_point)(name)
+    }
+}
+
+pub struct TapRaw(parking_lot::RawRwLock);
+
+unsafe impl lock_api::RawRwLock for TapRaw {
+    #[allow(clippy::declare_interior_mutable_const)]
+    const INIT: Self = TapRaw(<parking_lot::RawRwLock as RawRwLockTrait>::INIT);
+    type GuardMarker = <parking_lot::RawRwLock as RawRwLockTrait>::GuardMarker;
+
+    #[inline]
+    fn lock_shared(&self) {
+        if let Some(h) = hooks() {
+            (h.want)(self as *const Self as usize, false)
+        }
+        self.0.lock_shared();
+    }
+    #[inline]
+    fn try_lock_shared(&self) -> bool {
+        self.0.try_lock_shared()
+    }
+    #[inline]
+    unsafe fn unlock_shared(&self) {
+        unsafe { self.0.unlock_shared() };
+        if let Some(h) = hooks() {
+            (h.released)(self as *const Self as usize, false)
+        }
+    }
+    #[inline]
+    fn lock_exclusive(&self) {
+        if let Some(h) = hooks() {
+            (h.want)(self as *const Self as usize, true)
+        }
+        self.0.lock_exclusive();
+    }
+    #[inline]
+    fn try_lock_exclusive(&self) -> bool {
+        self.0.try_lock_exclusive()
+    }
+    #[inline]
+    unsafe fn unlock_exclusive(&self) {
+        unsafe { self.0.unlock_exclusive() };
+        if let Some(h) = hooks() {
+            (h.released)(self as *const Self as usize, true)
+        }
+    }
+    #[inline]
+    fn is_locked(&self) -> bool {
+        self.0.is_locked()
+    }
+}
+
+pub type RwLock<T> = lock_api::RwLock<TapRaw, T>;
+pub type RwLockReadGuard<'a, T> = lock_api::RwLockReadGuard<'a, TapRaw, T>;
+pub type RwLockWriteGuard<'a, T> = lock_api::RwLockWriteGuard<'a, TapRaw, T>;
+
+/// Address the hooks report for `lock` (for naming locks in reports).
+pub fn addr_of<T>(lock: &RwLock<T>) -> usize {
+    (unsafe { lock.raw() }) as *const TapRaw as usize
+}
